@@ -652,7 +652,7 @@ def history(ctx):
             G[i, j], G[j, i] = -np.sin(th), np.sin(th)
             U = U @ G
         mo[:, cols] = mo[:, cols] @ U
-        return mo, float(np.max(np.abs(U - np.eye(k)))) > 1e-6
+        return mo, bool(k >= 2 and float(np.max(np.abs(U - np.eye(k)))) > 1e-6)
 
     def body_reuse(case):
         from tangelo.algorithms.classical import FCISolver, CCSDSolver
